@@ -149,7 +149,7 @@ fn judge<T: LFloat>(cx: &mut Ctx, case: &Case) {
         },
         _ => true,
     };
-    let boundary = case.tag.contains("halfway") || case.tag.starts_with("tie") || case.tag == "fastpath-limit" || case.tag == "extreme-exp";
+    let boundary = case.tag.contains("halfway") || case.tag.contains("tie") || case.tag.starts_with("tie") || case.tag == "fastpath-limit" || case.tag == "extreme-exp";
     if boundary || ndig > 19 || edge {
         cx.distinct.insert(hash(text) ^ (k.mant_bits as u64));
     }
@@ -235,6 +235,16 @@ fn main() {
                 judge::<f32>(&mut cx, c);
                 if cx.idx % 4 == 0 {
                     judge::<f64>(&mut cx, c);
+                }
+            }
+        }
+        if shard == 0 {
+            for kind in [oracle::F64, oracle::F32] {
+                let mut cases = Vec::new();
+                fgen::short_ties(kind, &mut rng, &mut |c| cases.push(c));
+                for c in &cases {
+                    judge::<f64>(&mut cx, c);
+                    judge::<f32>(&mut cx, c);
                 }
             }
         }
